@@ -176,6 +176,19 @@ pub fn run(ctx: Arc<Ctx>) {
 	}
 	irr.insert((2, 1, 3), b"z2".to_vec());
 	fams.push(("irregular level with extreme rows outside the first/middle/last column, zoom gap".into(), irr));
+	// columns whose rows cross a digit boundary (8, 9, 10, 11): name order differs from numeric order
+	let mut digits = TileMap::new();
+	for x in 3..=6u32 {
+		for y in 8..=11u32 {
+			if !(x == 3 && y == 11) && !(x == 6 && y == 8) {
+				digits.insert((4, x, y), format!("d {x} {y}").into_bytes());
+			}
+		}
+	}
+	for (x, y) in [(9u32, 99u32), (9, 100), (9, 101), (10, 100), (11, 100), (100, 7), (99, 7)] {
+		digits.insert((7, x, y), format!("e {x} {y}").into_bytes());
+	}
+	fams.push(("rows and columns crossing a digit boundary (8..11, 99..101)".into(), digits));
 	let mut gap = TileMap::new();
 	gap.insert((0, 0, 0), b"root".to_vec());
 	gap.insert((5, 17, 11), b"five".to_vec());
@@ -233,6 +246,15 @@ pub fn run(ctx: Arc<Ctx>) {
 				members.push(meta);
 			} else {
 				members.insert(0, meta);
+			}
+			// archives that were updated by appending: an outdated copy of the first tile stands before the current
+			// one (on extraction the later member replaces the earlier)
+			if l.meta_last && is_fam {
+				if let Some((n, d)) = members.iter().find(|(n, _)| n.ends_with(".png")).cloned() {
+					let mut old = d.clone();
+					old.extend_from_slice(b" (outdated)");
+					members.insert(0, (n, old));
+				}
 			}
 			let path = wpath.join(format!("t{i}.tar"));
 			std::fs::write(&path, codec::tar_write(&members, l)).unwrap();
